@@ -452,6 +452,18 @@ func largestUnit(d int64) string {
 	return fmt.Sprintf("%dns", d)
 }
 
+// renderTarget spells a target: plainly, zero-padded (still decimal: "0100" is one hundred) or signed.
+func renderTarget(t *rapid.T, v int) string {
+	switch rapid.IntRange(0, 9).Draw(t, "targetSpelling") {
+	case 0:
+		return strings.Repeat("0", rapid.IntRange(1, 3).Draw(t, "zeroPad")) + strconv.Itoa(v)
+	case 1:
+		return "+" + strconv.Itoa(v)
+	default:
+		return strconv.Itoa(v)
+	}
+}
+
 func renderStages(t *rapid.T, st []stageSpec) string {
 	spaced := rapid.IntRange(0, 2).Draw(t, "spacing")
 	parts := make([]string, len(st))
@@ -459,11 +471,11 @@ func renderStages(t *rapid.T, st []stageSpec) string {
 		d := renderDuration(t, s.D)
 		switch spaced {
 		case 0:
-			parts[i] = d + ":" + strconv.Itoa(s.Target)
+			parts[i] = d + ":" + renderTarget(t, s.Target)
 		case 1:
-			parts[i] = d + ": " + strconv.Itoa(s.Target)
+			parts[i] = d + ": " + renderTarget(t, s.Target)
 		default:
-			parts[i] = " " + d + " : " + strconv.Itoa(s.Target) + " "
+			parts[i] = " " + d + " : " + renderTarget(t, s.Target) + " "
 		}
 	}
 	if spaced == 1 {
